@@ -198,8 +198,8 @@ fn unicode_other(c: char) -> bool {
     c.is_other()
 }
 
-const LINE_ALPHABET: [&[u8]; 18] = [
-    b"foo", b"foo (glob)", b"foo (?)", b"foo ()", b"[1]", b"$ x", b"> x", b"```", b"", b"  ", b"x\x01", b"a\\tb", b"a\\tb\x01", "é".as_bytes(), b"\xff", b"# c", b"foo (no-eol)", b"x\x01 (no-eol)",
+const LINE_ALPHABET: [&[u8]; 20] = [
+    "total\u{a0}(glob)".as_bytes(), "x\u{3000}(?)".as_bytes(), b"foo", b"foo (glob)", b"foo (?)", b"foo ()", b"[1]", b"$ x", b"> x", b"```", b"", b"  ", b"x\x01", b"a\\tb", b"a\\tb\x01", "é".as_bytes(), b"\xff", b"# c", b"foo (no-eol)", b"x\x01 (no-eol)",
 ];
 
 /// `update`: a document whose tests are perturbed; oracle = C09 (rewritten blocks pass) and C10
@@ -534,7 +534,7 @@ pub fn run(ctx: &Ctx, prop: &str) {
     // lines assembled from syntax fragments: every combination of the first-character escape with the suffix logic
     const PRE: [&[u8]; 7] = [b"$ ", b"> ", b"", b"[", b" ", b"$", b"```"];
     const MID: [&[u8]; 8] = [b"foo", b"x\x01", b"a\\b", "\u{e9}".as_bytes(), b"12", b"", b"\xff", b"\\"];
-    const SUF: [&[u8]; 10] = [b"", b" (no-eol)", b" (glob)", b" (escaped)", b" (equal)", b"]", b" ", b"\\", b" (no-eol) (escaped)", b"\t(*)"];
+    const SUF: [&[u8]; 14] = ["\u{a0}(glob)".as_bytes(), "\u{2003}(equal)".as_bytes(), "\u{3000}(no-eol)".as_bytes(), "\u{1680}(*)".as_bytes(), b"", b" (no-eol)", b" (glob)", b" (escaped)", b" (equal)", b"]", b" ", b"\\", b" (no-eol) (escaped)", b"\t(*)"];
     let nfrag = (PRE.len() * MID.len() * SUF.len()) as u64;
     ctx.run_stream("create-fragment-lines-exhaustive", nfrag * 2 * 2 * 2 * 2, true, |idx| {
         let mut r = idx;
